@@ -169,7 +169,7 @@ fn is_constant_2() {
     is_constant_n::<2>()
 }
 
-//@H props=C02,C04 tier=thorough kind=bounded cap=3600 mem=medium bound="3 rules" domain="all operators x kinds x {with, without day selector} x {00:00-24:00, other span}; any two days"
+//@H props=C02,C04 tier=quick kind=bounded cap=1800 mem=medium bound="3 rules" domain="all operators x kinds x {with, without day selector} x {00:00-24:00, other span}; any two days"
 #[cfg_attr(kani, kani::proof)]
 #[cfg_attr(kani, kani::unwind(6))]
 #[cfg_attr(verif_replay, test)]
